@@ -11,6 +11,7 @@ import boot  # noqa
 import common
 import coqcases
 import corpus
+import coqmol
 from coqfmt import zraw, b, lst, opt, tup
 
 replay = common.generic_replay
@@ -323,6 +324,42 @@ def corr_api(ck, mols):
         meta.append(('api_hypotheses', kind, mstr(m)))
         if shares_atom(m):
             shared.append((kind, mstr(m)))
+    # tie of the registry model of property C12 (Model.StereoRegistry) to the path list this model takes as input
+    # (C10_api_roundtrip_registry): the same real molecule printed as Graph.mol and as the packer's record, well formed,
+    # and the key list of stereogenic_cumulenes computed by the registry model == the real one
+    gcases, gmeta = [], []
+    for kind, m in mols:
+        if kind == 'element' and len(gcases) % 7:
+            continue
+        data = bytes(m.pack(compressed=False))
+        paths = [list(p) for p in m.stereogenic_cumulenes]
+        gcases.append(f'reg_tie {coqmol.mol_term(m)} (pm_atoms {pmol_term(m, data)}) {lst([lst(p, zraw) for p in paths])}')
+        gmeta.append(('registry_tie', kind, mstr(m)))
+    gextra = '''From Model Require Import Graph StereoRegistry.
+Definition patom_bonds (nb : list (Z * bond)) : list nbr := map (fun mb => (fst mb, (b_ord (snd mb), b_stereo (snd mb)))) nb.
+Definition nbr_eqb (x y : nbr) : bool :=
+  (fst x =? fst y) && (fst (snd x) =? fst (snd y)) && option_eqb Bool.eqb (snd (snd x)) (snd (snd y)).
+Definition same_molecule (g : mol) (atoms : list patom) : bool :=
+  list_eqb (fun x y => (fst (fst x) =? fst (fst y)) && (snd (fst x) =? snd (fst y)) && list_eqb nbr_eqb (snd x) (snd y))
+           (map (fun na => (fst na, a_num (snd na), patom_bonds (nbrs g (fst na)))) (m_atoms g))
+           (map (fun a => (pa_n a, pa_an a, pa_nbrs a)) atoms).
+Definition reg_tie (g : mol) (atoms : list patom) (paths : list (list Z)) : bool :=
+  wf_mol g && same_molecule g atoms &&
+  match cumulenes el_double g with
+  | Ok ps => list_eqb (list_eqb Z.eqb) (map fst (sg_cumulenes_of el_single g ps)) paths
+  | Err _ => false
+  end.
+'''
+    gok, gfailing, glog = coqcases.run_cases('c10g', 'Pack PackSpec PackStereo PackStereoSpec', gcases, extra=gextra, shard=100)
+    ck.oblige('correspondence: registry model (C12 StereoRegistry) computes the path list handed to the PackStereo model, on the same well-formed molecule', gok and not gfailing,
+              'correspondence', glog or str([gmeta[i] for i in gfailing[:5]]))
+    ck.extra['correspondence_cases'] = ck.extra.get('correspondence_cases', 0) + len(gcases)
+    if not gok or gfailing:
+        gbad = {(gmeta[i][1], gmeta[i][2]) for i in gfailing}
+        for kind, m in mols:
+            if (kind, mstr(m)) in gbad:
+                check_molecule(ck, kind, m, tag='-directed')
+        ck.unchecked('tie of the registry model to the path list of the PackStereo model', glog[-1500:], [repr(gmeta[i]) for i in gfailing[:20]])
     ok, failing, log = coqcases.run_cases('c10a', 'Pack PackSpec PackStereo PackStereoSpec', cases, extra=EXTRA, shard=150)
     ck.oblige('correspondence: terminals/centers dicts, _cis_trans_count, MoleculeContainer.unpack label re-attachment == Coq model (PackStereo)', ok and not failing,
               'correspondence', log or str([meta[i] for i in failing[:5]]))
